@@ -105,7 +105,7 @@ class ChildState:
                     waited.add(t.ident)     # blocked for good (uninterruptible): do not wait for it again
 
     def check(self, what):
-        import time as _time
+        _time = time        # the real module object imported by this file at start-up, not whatever sys.modules holds now
         viol = []
         sb = self.sb
         if sys.stdout is not self.base_stdout:
@@ -212,6 +212,19 @@ class ChildState:
                 (C.allow_real_io if op['allow'] else C.block_real_io)()
             elif kind == 'tracer':
                 sb.tracer_style = op['style']
+            elif kind == 'module_rule':
+                rule = op['rule']
+                if rule == 'block-time':
+                    sb.block_module('time')
+                elif rule == 'mock-time-without-sleep':
+                    sb.mock_module('time', {'time': lambda: 0.0})
+                elif rule == 'block-sys':
+                    sb.block_module('colorsys')
+                elif rule == 'mock-io':
+                    sb.mock_module('wave', {'open': lambda *a: None})
+                else:
+                    sb.clear_mocks()
+                what = 'module_rule(%s)' % rule
         except BaseException as e:
             outcome = 'raised ' + type(e).__name__
         finally:
@@ -315,7 +328,9 @@ class Stepper:
                                    optional={'fault': st.sampled_from(FAULTS)})
         return st.one_of(ex, ex, ex, ex, st.just({'op': 'clear_sandbox'}),
                          st.fixed_dictionaries({'op': st.just('real_io'), 'allow': st.booleans()}),
-                         st.fixed_dictionaries({'op': st.just('tracer'), 'style': st.sampled_from(['none', 'native', 'calls', 'coverage'])}))
+                         st.fixed_dictionaries({'op': st.just('tracer'), 'style': st.sampled_from(['none', 'native', 'calls', 'coverage'])}),
+                         # instructor-side module rules that touch the very things the sandbox borrows
+                         st.fixed_dictionaries({'op': st.just('module_rule'), 'rule': st.sampled_from(['block-time', 'mock-time-without-sleep', 'block-sys', 'mock-io', 'clear'])}))
 
     def apply(self, op):
         self.history.append(op)
